@@ -187,6 +187,15 @@ impl Exec {
 extern "C" {
     fn setrlimit(resource: i32, rlim: *const [u64; 2]) -> i32;
     fn signal(signum: i32, handler: usize) -> usize;
+    fn prctl(option: i32, arg2: u64, arg3: u64, arg4: u64, arg5: u64) -> i32;
+}
+/// a child must not outlive the harness (the watchdog ends the harness with `exit`, and a child stuck
+/// in a non-terminating call would spin forever): ask the kernel to SIGKILL it when the parent dies
+pub fn die_with_parent() {
+    const PR_SET_PDEATHSIG: i32 = 1;
+    unsafe {
+        prctl(PR_SET_PDEATHSIG, 9, 0, 0, 0);
+    }
 }
 const RLIMIT_FSIZE: i32 = 1;
 const SIGXFSZ: i32 = 25;
@@ -201,6 +210,7 @@ pub fn set_fsize_limit(n: u64) -> bool {
 
 /// the child process: one line in, one line out
 pub fn child_main(dir: &Path) -> i32 {
+    die_with_parent();
     let mut imp = Impl::new(dir);
     let stdin = std::io::stdin();
     let mut out = std::io::stdout();
